@@ -240,7 +240,11 @@ def run(sc):
     cw = d.contact.worldid.numpy()[:nacon]
     island = d.tree_island.numpy()
     if mjd is not None:
-      mujoco.mj_step(mjm, mjd)
+      try:
+        mujoco.mj_step(mjm, mjd)
+      except Exception:  # the reference engine gave up on this state (mujoco.FatalError, e.g. rank-deficient Hessian): no lock-step from here on
+        stats["skipped"]["mujoco_raised"] = stats["skipped"].get("mujoco_raised", 0) + 1
+        mjd = None
     for w in range(nworld):
       any_sleep = pre_asleep[w].any() or post_asleep[w].any()
       touch = np.zeros((ntree, ntree), dtype=bool)
